@@ -239,7 +239,7 @@ pub fn def() -> CheckDef {
             // the same clauses as a monitor on every probe round of the shared histories (windows restart
             // whenever the set of known members changes), of the chaos pool and of the exhaustive short histories
             Batch { scenario: &crate::checks::histchecks::H14, quick: 40_000, thorough: 3_000_000 },
-            Batch { scenario: crate::checks::histchecks::chaos_for("C14"), quick: 3_000, thorough: 150_000 },
+            Batch { scenario: crate::checks::histchecks::chaos_for("C14"), quick: 6_000, thorough: 150_000 },
             Batch { scenario: crate::checks::histchecks::exhaustive_for("C14"), quick: 0, thorough: 0 },
         ],
         extra: None,
